@@ -3,9 +3,9 @@
 wt=$1; demo=$2
 cd "$(dirname "$0")/.."
 name=$(basename $wt)
-git -C $wt diff > /root/r6/$name.diff
+git -C $wt diff > ${OUT:-/root/r7}/$name.diff
 b=$(tools/baseline.py $wt | tail -1)
 w=$(cd $wt && PYTHONPATH=$wt timeout 900 /venv/bin/python $demo >/dev/null 2>&1; echo $?)
-wo=$(cd $wt && git apply -R /root/r6/$name.diff && PYTHONPATH=$wt timeout 900 /venv/bin/python $demo >/dev/null 2>&1; echo $?; git apply /root/r6/$name.diff)
-fired=$(printf "%s\n" C01 C02 C03 C04 C05 C06 C07 C08 C09 C10 C11 C12 C13 C14 C15 C16 C17 C18 C19 C20 | xargs -P 8 -I{} bash -c "FXP_REPO=$wt VERIF_SKIP_LEANCHECKER=1 ./check {} quick >/root/r6/$name.{}.log 2>&1; echo {}:\$?" | grep -v ":0" | sort | tr '\n' ' ')
+wo=$(cd $wt && git apply -R ${OUT:-/root/r7}/$name.diff && PYTHONPATH=$wt timeout 900 /venv/bin/python $demo >/dev/null 2>&1; echo $?; git apply ${OUT:-/root/r7}/$name.diff)
+fired=$(printf "%s\n" C01 C02 C03 C04 C05 C06 C07 C08 C09 C10 C11 C12 C13 C14 C15 C16 C17 C18 C19 C20 | xargs -P 8 -I{} bash -c "FXP_REPO=$wt VERIF_SKIP_LEANCHECKER=1 ./check {} quick >${OUT:-/root/r7}/$name.{}.log 2>&1; echo {}:\$?" | grep -v ":0" | sort | tr '\n' ' ')
 echo "$name [$b] demo with=$w without=$wo  FIRED: $fired"
